@@ -172,7 +172,7 @@ class CreateStream(Stream):
             if r["ltype"] != "batch" and r_emax > 0 and not (0 < int(r["emax"]) <= r_emax):
                 bad("explicit max TTL exceeds the role's", "role-emax-exceeded")
         if cross_ns == "1" and any("root" in v for v in views.values()):
-            # C07-B: the guard "root tokens may not be created from a parent namespace" inspects only the raw requested list
+            # F33: the guard "root tokens may not be created from a parent namespace" inspects only the raw requested list
             req_root = [p for p in plist(pols) if norm(p) == "root"]
             how = ("requested as %s" % req_root) if req_root else "inherited from the parent through a role / empty request"
             bad("root token created in a child namespace by a parent-namespace token (%s)" % how,
@@ -188,14 +188,14 @@ class CreateStream(Stream):
             if e > 0 and ttl_v > e:
                 bad("TTL exceeds the explicit max TTL", "ttl-over-explicit-max")
             if ttl_v > sys_max:
-                # C07-A: a token holding root, created with neither ttl nor period, gets its explicit max as TTL uncapped
+                # F32: a token holding root, created with neither ttl nor period, gets its explicit max as TTL uncapped
                 if "root" in views["lpol"] and ttl in ("-", "0") and period_v <= 0 and e > 0 and ttl_v == e:
                     bad("root token created without ttl/period gets TTL = explicit_max_ttl (%d s) above the mount max "
                         "(%d s); parent TTL %s s" % (ttl_v, sys_max, pttl), "root-ttl-from-explicit-max-over-mount-max")
                 else:
                     bad("TTL exceeds the mount max TTL", "ttl-over-mount-max")
             elif ttl_v > int(mount_max):
-                # C07-C: the shared token store bounds by the root namespace's token mount, whatever the namespace's own says
+                # F34: the shared token store bounds by the root namespace's token mount, whatever the namespace's own says
                 bad("TTL (%d s) exceeds the max lease TTL tuned on the token mount of the request's namespace (%s s); "
                     "the shared token store bounds by the root namespace's token mount (%d s)" % (ttl_v, mount_max, sys_max),
                     "ns-token-mount-max-ignored")
@@ -267,7 +267,7 @@ class C07(PropCheck):
                    "the token's creation second equals the second CalculateTTL reads (the harness retries otherwise)",
                    "caller capabilities (update / sudo on the request path) are inputs, read from Core.Capabilities",
                    "Env.sysMax / sysDefault are those of the token store's own system view (ts.System(), the root namespace's "
-                   "token mount); that a child namespace's token mount tuning is not consulted is finding C07-C, seen by the "
+                   "token mount); that a child namespace's token mount tuning is not consulted is finding F34, seen by the "
                    "direct predicate, not by the model",
                    "a non-expiring token created in a child namespace is revoked at once by the expiration manager; for that "
                    "shape only the creation response is compared (lookup fields are `?` on both sides)"]
